@@ -86,10 +86,11 @@ def doRenew (l : Line) : String :=
   let aw := ((l.get? "steps").getD "").splitOn "," |>.filter (· ≠ "")
   match sw.mapM parseReply, aw.mapM parseAct with
   | some script, some acts =>
+    if !acts.all Act.ok then "error non-positive-advance" else
     let s0 := start dirOn anch script t0
-    let (sN, obs) := acts.foldl (fun (acc : RN × List (String × String)) a =>
-      let s' := act acc.1 a
-      (s', acc.2 ++ [showObs s'])) (s0, [showObs s0])
+    let sts := runActs s0 acts
+    let sN := sts.getLast?.getD s0
+    let obs := (s0 :: sts).map showObs
     let reqs := ",".intercalate (sN.log.reverse.map fun r => s!"{r.stamp}:{if r.good then 1 else 0}")
     let timers := ",".intercalate (sN.timers.reverse.map fun t => s!"{t.1}:{t.2}")
     let served := ",".intercalate (obs.map (·.1))
